@@ -70,6 +70,10 @@ func seedPayloads() []*V {
 	add(ptr(st(fld("F1", nil, imap("k1", str(1), "k2", &V{K: "bytes", C: 2}, "k3", &V{K: "strs", Cs: []int{3}}, "k4", &V{K: "int", I: 9}, "k5", imap("k1", str(4)), "k6", ptr(inner(5)))))))
 	add(ptr(st(fld("F1", nil, &V{K: "map", Keys: []string{"k1", "k2"}, Vals: []*V{str(1), str(2)}}))))
 	add(ptr(st(fld("F1", nil, ptr(imap("k1", str(1)))))))
+	// named string types (json.Number, type Role string) are values the filter leaves alone: interface-valued and typed maps, fields
+	add(ptr(st(fld("F1", nil, imap("k1", &V{K: "jnum", I: 42}, "k2", &V{K: "role", I: 3}, "k3", str(1))), fld("F2", sec, &V{K: "role", I: 4}), fld("F3", nil, &V{K: "jnum", I: 5}),
+		fld("F4", nil, &V{K: "map", Keys: []string{"k1", "k2"}, Vals: []*V{{K: "role", I: 1}, {K: "role", I: 2}}}), fld("F5", nil, &V{K: "map", Keys: []string{"k1"}, Vals: []*V{{K: "jnum", I: 9}}}))))
+	add(imap("k1", &V{K: "jnum", I: 42}, "k2", &V{K: "role", I: 3}))
 	// F8a: a struct stored by value in a map
 	add(ptr(st(fld("F1", nil, imap("k1", inner(1))))))
 	add(ptr(st(fld("F1", nil, &V{K: "map", Keys: []string{"k1"}, Vals: []*V{inner(1)}}))))
